@@ -832,6 +832,12 @@ def cond_truth(c, env):
         if r is None:
             return None
         return r if c["op"] == "==" else not r
+    if k == "Bin" and c["op"] in ("<", "<=", ">", ">="):
+        a = eval_abs(c["x"], env)
+        b = eval_abs(c["y"], env)
+        if a is not TOP and b is not TOP and a[0] == "c" and b[0] == "c" and a[1] >= 0 and b[1] >= 0:
+            return {"<": a[1] < b[1], "<=": a[1] <= b[1], ">": a[1] > b[1], ">=": a[1] >= b[1]}[c["op"]]
+        return None
     return truth(eval_abs(c, env))
 
 
